@@ -77,13 +77,12 @@ def encode_cobs(msg):
     
     for b in msg:
         if b != 0:
-            if code >= 254:
-                ret.append(b)
-                ret[len(ret) - code] = code + 1
-                code = 1
-                continue
             ret.append(b)
             code = code + 1
+            if code == 255:
+                ret[len(ret) - code] = code
+                code = 1
+                ret.append(code)
         else:
             if code != 1:
                 ret[len(ret) - code] = code
